@@ -90,7 +90,9 @@ def getitem(x, index):
         # Add to the shape and transform the coords in the case of a slice.
         if isinstance(ind, slice):
             shape.append(len(range(ind.start, ind.stop, ind.step)))
-            coords.append((x.coords[i, mask] - ind.start) // ind.step)
+            # Python ints must not be converted to a narrow/unsigned coords dtype (a negative step has no
+            # unsigned representation): do the arithmetic in intp; the result lies in [0, shape[-1]).
+            coords.append(((x.coords[i, mask].astype(np.intp) - ind.start) // ind.step).astype(x.coords.dtype))
             i += 1
             if ind.step < 0:
                 sorted = False
